@@ -37,6 +37,16 @@ CHECKS = {
    note='The induction over arbitrary nestings is not mechanised: these are its base and step cases at sampled heights/types '
         '(slot indices are affine in the height). C goto/switch semantics and module validity are assumed.',
    ref='DESIGN.md 4/C03'),
+ 'C04': dict(
+   technique='partial evaluation of the call emitters over the arity grid (affine slot indices) + cross-emitter agreement of function identifiers on one module; host-symbol cross-check against wasi.c',
+   text='call and call_indirect for arities 0..4 (thorough 0..8), with and without result, at two stack heights: the emitted statement '
+        'equals, token for token, <new top slot> = callee(i, operands deepest-first), for call_indirect with the table index from the top '
+        'slot and a function-pointer cast rendered from the same signature; stack effect and result declaration are right. On a module with '
+        'two imports and three functions the call emitter, the import/function declarations, the definitions, the export wrappers, the element '
+        'stores, the start call and the symbol-prefixed variants all spell the same identifier for the same module-level index and pick the '
+        'type through imports first; WASI imports are spelled exactly as the symbols wasi.c defines.',
+   note='Runtime table bounds/signature checks are outside the property; the C ABI is trusted.',
+   ref='DESIGN.md 4/C04'),
  'C05': dict(
    technique='partial evaluation of emitters (both offset variants) + typed-template address rules; path summaries of runtime functions with ordered memory-touch traces',
    text='For all 23 load/store encodings: the address argument is a 64-bit unsigned sum of the zero-extended address slot and the '
